@@ -217,7 +217,7 @@ def replay(ctx: Ctx, rp: dict) -> dict:
         async def wmain(loop):
             loop.set_exception_handler(lambda l, c: None)
             r = await _wstop.one_run(loop, o["broker"], o["k"], o["durs"], o["graceful"], o.get("queues", 1), o.get("messages_limit"),
-                                     o.get("tasks_limit", 2), o.get("jobs", 4), o.get("subscribers", False), o.get("eager", False))
+                                     o.get("tasks_limit", 2), o.get("jobs", 4), o.get("subscribers", False), o.get("eager", False), o.get("latency", 0))
             out.update(r)
         run_virtual(wmain)
         out["fails"] = bool(out["err"] or out["inflight"] or out["dup"] or out.get("ghosts"))
